@@ -214,3 +214,37 @@ func vfC12Wrappers(c int) {
 	r := s.Ring(orb.Ring{{0, 0}, {1, 0.001}, {2, 0}, {0, 0}})
 	vfAssert("ring-keeps-endpoints", len(r) >= 2 && r[0] == r[len(r)-1])
 }
+
+// ---- through the public methods (LineString / Ring wrappers), kernels uninterpreted ----
+
+func vfC12Public_N(tier int) int     { return 3 + tier }
+func vfC12Public_Label(c int) string { return "vertices=" + strconv.Itoa(c+2) }
+
+func vfC12Public(c int) {
+	n := c + 2
+	in := vfLine("v", n)
+	t := vfReal("t")
+	vfAssume(t >= 0)
+	df := func(a, b orb.Point) float64 { return vfUF4("dist", a[0], a[1], b[0], b[1]) }
+	vfReach("public")
+	// radial: consecutive kept vertices farther apart than the threshold, except possibly the last pair
+	out := Radial(df, t).LineString(in.Clone())
+	vfAssert("radial-keeps-endpoints", len(out) >= 1 && vfSymTrue(vfSamePt(out[0], in[0])) && vfSymTrue(vfSamePt(out[len(out)-1], in[n-1])))
+	for i := 1; i+1 < len(out); i++ {
+		vfAssert("radial-public-kept-farther-than-threshold", df(out[i-1], out[i]) > t)
+	}
+	// Visvalingam keep-N returns exactly N when the input is longer
+	for keep := 2; keep <= n; keep++ {
+		vfAssert("vis-public-keep-exactly-n", len(VisvalingamKeep(keep).LineString(in.Clone())) == keep)
+	}
+	// Douglas-Peucker with a threshold above every distance keeps only the end points
+	dp := DouglasPeucker(t).LineString(in.Clone())
+	vfAssert("dp-public-keeps-endpoints", len(dp) >= 2 && vfSymTrue(vfSamePt(dp[0], in[0])) && vfSymTrue(vfSamePt(dp[len(dp)-1], in[n-1])))
+}
+
+func vfSymTrue(c bool) bool {
+	if c {
+		return true
+	}
+	return false
+}
